@@ -1124,6 +1124,8 @@ impl TransactionalMemory {
         if two_phase {
             self.storage.flush()?;
         }
+        #[cfg(redb_verif)]
+        crate::verif_types::pause("mem.commit.between_headers");
 
         // Make our new commit the primary, and record whether it was a 2-phase commit.
         // These two bits need to be written atomically
@@ -1140,6 +1142,8 @@ impl TransactionalMemory {
         // Everything this stood in for is now durable: durable_commit() flushed the allocation
         // records to DATA_ALLOCATED_TABLE before reaching here.
         self.unpersisted.lock().unwrap().clear();
+        #[cfg(redb_verif)]
+        crate::verif_types::pause("mem.commit.before_swap");
 
         let mut state = self.state.lock().unwrap();
         assert_eq!(
